@@ -52,6 +52,7 @@ from distance import hamming
 from lib.eccman import ECCMan, compute_ecc_params
 from lib.hasher import Hasher
 from reedsolo import ReedSolomonError
+from unireedsolomon import RSCodecError
 
 
 
@@ -258,9 +259,13 @@ Note: An ecc structure repair does NOT allow to recover from more errors on your
                     if not ecc_manager_idx.check(marker_str, ecc):
                         # Trying to fix the marker's infos using the ecc
                         idx_corrupted += 1
-                        marker_repaired, repaired_ecc = ecc_manager_idx.decode(marker_str, ecc)
+                        try:
+                            marker_repaired, repaired_ecc = ecc_manager_idx.decode(marker_str, ecc)
+                        except (ReedSolomonError, RSCodecError) as exc: # the decoding may raise an exception when there are too many errors: this index block is lost, but we must go on with the others
+                            marker_repaired = None
+                            repaired_ecc = None
                         # Repaired the marker's infos, all is good!
-                        if ecc_manager_idx.check(marker_repaired, repaired_ecc):
+                        if marker_repaired is not None and ecc_manager_idx.check(marker_repaired, repaired_ecc):
                             marker_str = marker_repaired
                             idx_corrected += 1
                         # Else it's corrupted beyond repair, just skip
@@ -268,7 +273,7 @@ Note: An ecc structure repair does NOT allow to recover from more errors on your
                             ptee.write("\n- Index backup file: error on block starting at %i, corrupted and could not fix it. Skipping." % curpos)
                             marker_str = None
                             continue
-                    if not marker_str: continue
+                    if not marker_str or len(marker_str) != ecc_params_idx["message_size"]: continue # (an index block truncated inside the marker's infos cannot be used)
 
                     # Repair ecc file's marker using our correct (or repaired) marker's infos
                     marker_type = int(chr(marker_str[0]) if isinstance(marker_str[0], int) else marker_str[0]) # marker's type is always stored on the first byte/character
